@@ -719,6 +719,88 @@ def out_of_range(fn, after):
 # ---------------------------------------------------------------- driver
 
 
+def cmax_defs(fname, line0, node):
+    """SadSsd.compute_cost_volume: the reported maximal cost.  The four extrema are np.amin / np.amax of the selected
+    bands; `cmax` is assigned None, then once under `if self._method == "sad"` and once under `== "ssd"`.  The two
+    expressions are translated in scaled integers: a radiometric value x is the integer x * u (u = 1 for whole
+    values, 4 for multiples of 1/4 ...), an expression carries the power p of u of its scale, int(e) = quot e (u^p)."""
+    where = lambda n: f"{fname}:{line0 + getattr(n, 'lineno', 1) - 1}"
+    ext = {}
+    assigns = []
+    for st in ast.walk(node):
+        if isinstance(st, ast.Assign) and len(st.targets) == 1 and isinstance(st.targets[0], ast.Name):
+            nm = st.targets[0].id
+            if nm in ("min_left", "max_left", "min_right", "max_right"):
+                want = f"np.{'amin' if nm.startswith('min') else 'amax'}(selected_band_{nm.split('_')[1]})"
+                if ast.unparse(st.value) != want or nm in ext:
+                    raise TranslationError(f"{where(st)}: {nm} is not {want}: {ast.unparse(st)}")
+                ext[nm] = True
+            if nm == "cmax":
+                assigns.append(st)
+        elif isinstance(st, (ast.AugAssign, ast.AnnAssign)) and isinstance(st.target, ast.Name) and \
+                st.target.id in ("cmax", "min_left", "max_left", "min_right", "max_right"):
+            raise TranslationError(f"{where(st)}: {ast.unparse(st)}")
+    if sorted(ext) != ["max_left", "max_right", "min_left", "min_right"]:
+        raise TranslationError(f"{fname}:{line0}: extrema assigned: {sorted(ext)}")
+    if len(assigns) != 3 or ast.unparse(assigns[0].value) != "None":
+        raise TranslationError(f"{fname}:{line0}: cmax is assigned {[ast.unparse(a) for a in assigns]}")
+    guarded = {}
+    for st in node.body:
+        if isinstance(st, ast.If) and ast.unparse(st.test) in ('self._method == "sad"', "self._method == 'sad'",
+                                                                'self._method == "ssd"', "self._method == 'ssd'"):
+            meth = st.test.comparators[0].value
+            if st.orelse or len(st.body) != 1 or st.body[0] not in assigns or meth in guarded:
+                raise TranslationError(f"{where(st)}: unexpected branch on the method: {ast.unparse(st)[:120]}")
+            guarded[meth] = st.body[0].value
+    if sorted(guarded) != ["sad", "ssd"]:
+        raise TranslationError(f"{fname}:{line0}: cmax is not assigned once per method at the top level: {sorted(guarded)}")
+
+    def tr(e):
+        """-> (Coq term : Z, power of u of its scale)"""
+        if isinstance(e, ast.Name) and e.id in ext:
+            return {"max_left": "maxl", "min_left": "minl", "max_right": "maxr", "min_right": "minr"}[e.id], 1
+        if isinstance(e, ast.Constant) and isinstance(e.value, int) and not isinstance(e.value, bool):
+            return f"({e.value})", 0
+        if isinstance(e, ast.Attribute) and ast.unparse(e) == "self._window_size":
+            return "w", 0
+        if isinstance(e, ast.BinOp) and isinstance(e.op, (ast.Sub, ast.Add)):
+            (a, pa), (b, pb) = tr(e.left), tr(e.right)
+            if pa != pb:
+                raise TranslationError(f"{where(e)}: operands of different scales: {ast.unparse(e)}")
+            return f"({a} {'-' if isinstance(e.op, ast.Sub) else '+'} {b})", pa
+        if isinstance(e, ast.BinOp) and isinstance(e.op, ast.Mult):
+            (a, pa), (b, pb) = tr(e.left), tr(e.right)
+            return f"({a} * {b})", pa + pb
+        if isinstance(e, ast.BinOp) and isinstance(e.op, ast.Pow) and isinstance(e.right, ast.Constant) \
+                and isinstance(e.right.value, int) and 1 <= e.right.value <= 4:
+            a, pa = tr(e.left)
+            return f"({a} ^ {e.right.value})", pa * e.right.value
+        if isinstance(e, ast.Call) and isinstance(e.func, ast.Name) and not e.keywords:
+            if e.func.id == "abs" and len(e.args) == 1:
+                a, pa = tr(e.args[0])
+                return f"(Z.abs {a})", pa
+            if e.func.id == "max" and len(e.args) == 2:
+                (a, pa), (b, pb) = tr(e.args[0]), tr(e.args[1])
+                if pa != pb:
+                    raise TranslationError(f"{where(e)}: max of different scales: {ast.unparse(e)}")
+                return f"(Z.max {a} {b})", pa
+            if e.func.id == "int" and len(e.args) == 1:
+                a, pa = tr(e.args[0])
+                return f"(Z.quot {a} (u ^ {pa}))", 0
+        raise TranslationError(f"{where(e)}: expression outside the translated subset: {ast.unparse(e)}")
+
+    out = []
+    for meth in ("sad", "ssd"):
+        term, p = tr(guarded[meth])
+        if p != 0:
+            raise TranslationError(f"{where(guarded[meth])}: cmax of {meth} is not an integer (scale u^{p}): "
+                                   f"{ast.unparse(guarded[meth])}")
+        out.append(f"(* SadSsd.compute_cost_volume, method \"{meth}\": cmax = {ast.unparse(guarded[meth])};\n"
+                   f"   a radiometric value x is the integer x * u (maxl = max_left * u ...), w = window_size *)\n"
+                   f"Definition {meth}_cmax (u maxl minl maxr minr w : Z) : Z :=\n  {term}.\n")
+    return out
+
+
 def get_fn(cls, name, module):
     f = cls.__dict__.get(name)
     static = isinstance(f, staticmethod)
@@ -857,6 +939,8 @@ def main():
                    f"Definition {gname}_on_transformed : bool * bool := "
                    f"({str(lp.left_transformed).lower()}, {str(lp.right_transformed).lower()}).\n")
         sources.append((f, f"lines {l0}-{l0 + n - 1} ({cls.__name__}.compute_cost_volume)", sha1_of(src)))
+        if cls is sad_ssd.SadSsd:
+            out.extend(cmax_defs(f, l0, node))
 
     text = ("From Coq Require Import ZArith Bool.\nFrom Pandora Require Import Model.PyArith.\n"
             "From Pandora Require Import Model.MatchingCost.\nOpen Scope Z_scope.\n\n"
